@@ -150,6 +150,11 @@ static void Handle(const json& c, vh::Report& r) {
     if (On("C03")) {
       if (ok == sbad) r.Violation("C03", ok ? "accepted-but-rules-reject" : "rejected-but-rules-accept", wit, { {"impl", ty}, {"spec", sty} });
       else if (ok && ty != sty) r.Violation("C03", "typification", wit, { {"impl", ty}, {"spec", sty} });
+      // a function definition also reports its declared argument list
+      if (ok && !sbad && c.value("isFunc", false)) {
+        json args = json::array(); for (const auto& a : auditor->GetDeclarationArgs()) args.push_back({ {"name", a.name}, {"type", AsciiType(a.type.ToString())} });
+        if (args != c["args"]) r.Violation("C03", "declared-arguments", wit, { {"impl", args}, {"spec", c["args"]} });
+      }
       // the value-class audit of an accepted expression: value / property / improper use of a property
       if (ok && !sbad && ty == sty && c.contains("vc")) {
         const bool vok = auditor->CheckValue();
@@ -163,7 +168,7 @@ static void Handle(const json& c, vh::Report& r) {
         if (!inside) r.Violation("C03", "error-position-outside", wit);
       }
     }
-    if (!ok) continue;
+    if (!ok || c.value("isFunc", false)) continue;       // a function definition has no value of its own
     // ---- evaluation under the three interpretations
     if (!(On("C01") || On("C02"))) continue;
     if (sbad) {
